@@ -147,8 +147,29 @@ func ForeignUnit(t *sim.Tape, rnd *sim.Rand) *UNode {
 	n := t.Draw(48)
 	pl := make([]byte, n)
 	rnd.Fill(pl)
-	typ := []string{"free", "skip", "zzzz", "uuid", "emsg", "prft", "abcd", "meta", "btrt"}[t.Draw(9)]
+	typ := []string{"free", "skip", "zzzz", "uuid", "emsg", "prft", "abcd", "meta", "btrt", "sgpd"}[t.Draw(10)]
 	switch typ {
+	case "sgpd":
+		// sample group description (version 1) with a seeded grouping type, default_length and small entries:
+		// exercises the per-type sample-group-entry decoders (roll, rap, alst, seig, unknown)
+		gt := []string{"roll", "rap ", "alst", "seig", "zzzz"}[t.Draw(5)]
+		dl := t.Draw(24)
+		n := t.Draw(3)
+		p := cat([]byte{1, 0, 0, 0}, []byte(gt), be32(uint32(dl)), be32(uint32(n)))
+		for i := 0; i < n; i++ {
+			el := dl
+			if dl == 0 {
+				el = t.Draw(24)
+				p = append(p, be32(uint32(el))...)
+			}
+			e := make([]byte, el)
+			rnd.Fill(e)
+			if gt == "alst" && el >= 2 {
+				e[0], e[1] = 0, byte(t.Draw(4)) // roll_count 0..3
+			}
+			p = append(p, e...)
+		}
+		pl = p
 	case "btrt":
 		pl = cat(be32(uint32(t.Draw(1<<20))), be32(uint32(t.Draw(1<<24))), be32(uint32(t.Draw(1<<24))))
 	case "meta":
@@ -321,6 +342,12 @@ func Transport(r *sim.Run, top *[]*UNode, nOps int, deep bool, kinds []string) [
 						off = 30
 					}
 					cands = append(cands, cand{n, k, off, 2, 12})
+				case "sgpd":
+					off := 12
+					if ver >= 2 {
+						off = 12
+					}
+					cands = append(cands, cand{n, k, off, 4, -1})
 				case "tfra":
 					// entry size depends on the length fields; only the count is lowered to 0
 					cands = append(cands, cand{n, k, 12, 4, -1})
